@@ -1,4 +1,269 @@
-import MidiModel.Live
+import Proofs.LiveWireReach
+import Proofs.LiveWireWeave
+import Proofs.LiveWireExample
+/-!
+# C04 — live MIDI byte streams are decoded into exactly the messages sent
+
+Implementation side (frozen model `MidiModel/Live.lean`): `feed` = `drivers.Reader.EachMessage` over a token
+stream of bytes and clock ticks, `listen c toks` = what the listener of `midi.ListenTo` on a `testdrv`
+loopback receives (`(some message, time stamp)`; `none` would be a panic of the callback).
+
+Specification side (`MidiModel/LiveWire.lean`, not a model of any code): a sender puts `Item`s on the wire —
+channel voice messages with or without their status byte (`elide`), system common messages, sysex,
+real-time bytes, clock ticks — and real-time bytes and ticks may sit in every gap inside a message
+(`Gap`/`Body`). `wireToks items` is what the receiver sees (`wire items` its bytes), `expected items` what a
+listener has to be handed: every message complete and with its status byte, the real-time bytes in order of
+arrival before the message they interrupt, each stamped with the clock at which its last byte arrived
+(sysex: its first byte). `WF bufSize items`: data bytes `< 0x80`, channel status `0x80..0xEF`, system common
+`F1 d | F2 d d | F3 d | F6`, the status byte omitted only directly after a channel message with the same
+status with nothing but real-time bytes and ticks in between, gaps contain only bytes `≥ 0xF8` and ticks,
+sysex of total length `≤ bufSize`.
+
+All placements of ticks = all ways of cutting the byte stream into `Send` / `EachMessage` calls with arbitrary
+deltas (the theorems do not even need the deltas to be non-negative, except `timestamp_of_sysex_between`).
+`AllOn c`: `UseSysEx`, `UseActiveSense`, `UseTimeCode` on, any `SysExBufferSize`.
+-/
 namespace Midi.C04
-theorem placeholder : True := trivial
+open Midi Midi.Live Midi.LiveWire
+
+/-- For data bytes `< 0x80` the `midi.Message` that `ListenTo` builds from the fixed three-byte frame of the
+    reader is the message itself: status byte first, its one or two data bytes, no padding zeros. -/
+theorem retype_frame (st : Nat) (body : Body) (h1 : 0x80 ≤ st) (h2 : st ≤ 0xEF)
+    (hlen : body.length = chanLen st) (hb : bodyOk body = true) :
+    retype (pad3 (st :: bodyData body)) = some (some (st :: bodyData body)) :=
+  retype_frame_chan st body h1 h2 hlen hb
+
+/-- the same for system common messages (`F1 d`, `F2 lsb msb`, `F3 d`, `F6`) -/
+theorem retype_frame_syscommon (st : Nat) (body : Body) (hl : syscLen st = some body.length)
+    (hb : bodyOk body = true) :
+    retype (pad3 (st :: bodyData body)) = some (some (st :: bodyData body)) :=
+  retype_frame_sysc st body hl hb
+
+/-- **Every legal wire sequence, with every legal running-status elision, every placement of real-time bytes
+    (also inside messages and inside sysex) and every placement of ticks (every chunking, any deltas), is
+    decoded into exactly the messages sent**: complete, status byte restored, each exactly once, in order of
+    completion, never a panic, with the time stamps of `expected`. -/
+theorem decode_wire (c : Cfg) (hc : AllOn c) (items : List Item) (h : WF c.bufSize items) :
+    listen c (wireToks items) = delivered (expected items) :=
+  listen_from_clean c hc items init 0 0 clean_init h
+
+/-- The contents and the order of what is delivered do not depend on where the ticks are — for EVERY token
+    stream (well-formed or not) and every configuration: the same bytes handed over in one call at time 0
+    give the same messages. -/
+theorem decode_chunking (c : Cfg) (toks : List Tok) :
+    (listen c toks).map (·.1) = (listen c (untick toks)).map (·.1) := by
+  have h : (feed c init (untick toks)).2 = (feed c init toks).2.map zeroTs :=
+    congrArg Prod.snd (feed_er c toks init)
+  unfold listen
+  rw [listenFrames_contents c (feed c init toks).2, ← h]
+
+/-- any two ways of cutting the same byte stream into chunks (with whatever deltas) deliver the same contents in
+    the same order -/
+theorem decode_chunking_same_bytes (c : Cfg) (a b : List Tok) (h : bytesOf a = bytesOf b) :
+    (listen c a).map (·.1) = (listen c b).map (·.1) := by
+  rw [decode_chunking c a, decode_chunking c b]
+  unfold untick
+  rw [h]
+
+/-- … byte by byte: what the listener is handed when a byte arrives (after any prefix `pre`) has the same contents
+    as what it is handed at that byte when the whole prefix came in one call — so the byte at which a message is
+    delivered does not depend on the chunking either. -/
+theorem decode_chunking_per_byte (c : Cfg) (pre : List Tok) (b : Nat) :
+    ∃ new new', listen c (pre ++ [Tok.byte b]) = listen c pre ++ new ∧
+      listen c (untick pre ++ [Tok.byte b]) = listen c (untick pre) ++ new' ∧
+      new.map (·.1) = new'.map (·.1) := by
+  refine ⟨listenFrames c (step c (feed c init pre).1 b).2,
+    listenFrames c (step c (feed c init (untick pre)).1 b).2, ?_, ?_, ?_⟩
+  · unfold listen
+    rw [feed_append, listenFrames_append, feed_cons, feed_nil]
+    simp [stepTok]
+  · unfold listen
+    rw [feed_append, listenFrames_append, feed_cons, feed_nil]
+    simp [stepTok]
+  · have h : (feed c init (untick pre)).1 = er (feed c init pre).1 := congrArg Prod.fst (feed_er c pre init)
+    rw [h, step_er, listenFrames_contents c (step c (feed c init pre).1 b).2]
+
+/-- `decode_wire` for token streams given only by their bytes: whatever the chunking of the bytes of a legal
+    wire sequence, the listener receives the messages of `expected`, in that order. -/
+theorem decode_wire_any_chunking (c : Cfg) (hc : AllOn c) (items : List Item) (h : WF c.bufSize items)
+    (toks : List Tok) (hb : bytesOf toks = wire items) :
+    (listen c toks).map (·.1) = (expected items).map (fun m => some m.1) := by
+  rw [decode_chunking_same_bytes c toks (wireToks items) hb, decode_wire c hc items h]
+  simp [delivered]
+
+/-- **All partitions, time stamps included.** Whatever token stream `toks` carries the bytes of a legal wire
+    sequence — however these bytes are cut into `EachMessage` calls and whatever the deltas — `toks` is itself
+    the token stream of a legal wire sequence `items'` (the chunk borders lie in its gaps and between its items),
+    so `decode_wire` and the time stamp theorems apply to it as it stands; and `items'` carries the same
+    messages in the same order as `items`. -/
+theorem decode_wire_every_chunking (c : Cfg) (hc : AllOn c) (items : List Item) (h : WF c.bufSize items)
+    (toks : List Tok) (hb : bytesOf toks = wire items) :
+    ∃ items', wireToks items' = toks ∧ WF c.bufSize items' ∧ listen c toks = delivered (expected items') ∧
+      (expected items').map (·.1) = (expected items).map (·.1) := by
+  obtain ⟨items', e, hw⟩ := weave_items c.bufSize items 0 toks h hb
+  refine ⟨items', e, hw, ?_, ?_⟩
+  · rw [← e]; exact decode_wire c hc items' hw
+  · have h1 := decode_wire_any_chunking c hc items h toks hb
+    rw [← e, decode_wire c hc items' hw] at h1
+    have h2 := congrArg (List.map (fun o : Option Bytes => o.getD [])) h1
+    simpa [delivered, List.map_map, Function.comp_def] using h2
+
+/-- Per-message lemma: the decoder is between messages (`Clean`: mode clean, running status `run`, first data
+    byte not pending) with clock `t`; any legal item — a message with or without status byte, a real-time
+    byte, a tick — with real-time bytes and ticks in its gaps yields exactly its messages and leaves the decoder
+    between messages with the running status MIDI 1.0 prescribes. -/
+theorem message_from_clean (c : Cfg) (hc : AllOn c) (s : St) (run : Nat) (t : Int) (it : Item)
+    (hs : Clean s run t) (hok : it.ok c.bufSize run = true) :
+    listenFrames c (feed c s it.toks).2 = delivered (it.msgs t) ∧
+      Clean (feed c s it.toks).1 (it.runAfter run) (t + it.time) := by
+  obtain ⟨s', e, cl⟩ := feed_item c hc.1 s run t it hs hok
+  rw [e]
+  exact ⟨listen_item c hc run t it hok, cl⟩
+
+/-- Per-message lemma from ANY decoder state (mid-message, mid-sysex, after an undefined status, …): a message
+    that carries its own status byte is decoded exactly, whatever came before. -/
+theorem message_explicit_any_state (c : Cfg) (hc : AllOn c) (s : St) (run : Nat) (it : Item)
+    (hex : startsExplicit [it] = true) (hok : it.ok c.bufSize run = true) :
+    listenFrames c (feed c s it.toks).2 = delivered (it.msgs s.ts) ∧
+      Clean (feed c s it.toks).1 (it.runAfter run) (s.ts + it.time) := by
+  obtain ⟨s', e, cl⟩ := feed_item_explicit c hc.1 s run it hex hok
+  rw [e]
+  exact ⟨listen_item c hc run s.ts it hok, cl⟩
+
+/-- Per-message lemma after ANY token stream `g` (arbitrary bytes, arbitrary chunking) that leaves the decoder in
+    mode clean: the next item — also a message WITHOUT status byte, judged against the running status the
+    decoder holds — is decoded exactly, at the clock `tickSum g`, and the decoder is between messages again. -/
+theorem message_after_any_stream (c : Cfg) (hc : AllOn c) (g : List Tok) (it : Item)
+    (hm : (feed c init g).1.mode = .clean) (hok : it.ok c.bufSize (feed c init g).1.status = true) :
+    listen c (g ++ it.toks) = listen c g ++ delivered (it.msgs (tickSum g)) ∧
+      Clean (feed c init (g ++ it.toks)).1 (it.runAfter (feed c init g).1.status) (tickSum g + it.time) := by
+  have hcl := reachable_clean c g hm
+  obtain ⟨e, cl⟩ := message_from_clean c hc _ _ _ it hcl hok
+  unfold listen
+  rw [feed_append, listenFrames_append, e]
+  exact ⟨rfl, cl⟩
+
+/-- **Time stamp = moment of completion.** In a legal sequence `pre ++ it :: post` the message `m` of a channel /
+    system common / real-time item `it` is delivered after everything `pre` delivers and after the real-time
+    bytes that sit inside it, exactly once at that place, stamped with the sum of all ticks before its last byte
+    (= the accumulated deltas of the `EachMessage` call that contains the last byte). -/
+theorem timestamp_of_completion (c : Cfg) (hc : AllOn c) (pre post : List Item) (it : Item) (m : Bytes)
+    (h : WF c.bufSize (pre ++ it :: post)) (hm : it.message = some m) (hns : ∀ b l, it ≠ .sysex b l) :
+    listen c (wireToks (pre ++ it :: post)) =
+      listen c (wireToks pre) ++ delivered (it.inner (tickSum (wireToks pre))) ++
+        (some m, tickSum (wireToks pre ++ it.toks.dropLast)) ::
+          delivered (expectedFrom (tickSum (wireToks (pre ++ [it]))) post) := by
+  have hwf : wfFrom c.bufSize 0 pre = true ∧ it.ok c.bufSize (runAfterAll 0 pre) = true := by
+    have := h
+    unfold WF at this
+    rw [wfFrom_append] at this
+    simp only [wfFrom, Bool.and_eq_true] at this
+    exact ⟨this.1, this.2.1⟩
+  obtain ⟨i, b, e⟩ := toks_end_byte it _ _ hwf.2 (by rw [hm]; rfl)
+  rw [decode_wire c hc _ h, decode_wire c hc pre hwf.1]
+  unfold expected
+  rw [expectedFrom_append, expectedFrom, msgs_split it _ m hm, wireToks_append, tickSum_append, tickSum_append]
+  have e3 : wireToks [it] = it.toks := by simp [wireToks]
+  rw [e3, e, tickSum_dropLast_byte, ← e, ← item_time]
+  rw [stampAt_nonsysex it _ hns]
+  simp [delivered]
+
+/-- The same for EVERY token stream, well-formed or not, and every configuration: whatever the listener is handed
+    when a byte `b ≠ F7` arrives (nothing, or the message that `b` completes) comes after everything delivered
+    before and is stamped with the sum of all ticks before `b` (= the accumulated deltas of the `EachMessage` call
+    that contains `b`). (`F7` closes a sysex, which carries the clock of its `F0`: `timestamp_of_sysex`.) -/
+theorem timestamp_any_stream (c : Cfg) (pre : List Tok) (b : Nat) (hb : b ≠ 0xF7) :
+    ∃ new, listen c (pre ++ [Tok.byte b]) = listen c pre ++ new ∧ ∀ m ∈ new, m.2 = tickSum pre := by
+  refine ⟨listenFrames c (step c (feed c init pre).1 b).2, ?_, ?_⟩
+  · unfold listen
+    rw [feed_append, listenFrames_append, feed_cons, feed_nil]
+    simp [stepTok]
+  · have h := step_stamp c (feed c init pre).1 b hb
+    rw [feed_ts] at h
+    have e : init.ts + tickSum pre = tickSum pre := by simp [init]
+    rw [e] at h
+    exact listenFrames_stamp c _ _ h
+
+/-- **A sysex carries the clock of its first byte**: it is delivered when its `F7` arrives (after the real-time
+    bytes inside it), stamped with the sum of the ticks before its `F0`. -/
+theorem timestamp_of_sysex (c : Cfg) (hc : AllOn c) (pre post : List Item) (body : Body) (last : Gap)
+    (h : WF c.bufSize (pre ++ .sysex body last :: post)) :
+    listen c (wireToks (pre ++ .sysex body last :: post)) =
+      listen c (wireToks pre) ++ delivered ((Item.sysex body last).inner (tickSum (wireToks pre))) ++
+        (some (0xF0 :: (bodyData body ++ [0xF7])), tickSum (wireToks pre)) ::
+          delivered (expectedFrom (tickSum (wireToks (pre ++ [.sysex body last]))) post) := by
+  have hwf : wfFrom c.bufSize 0 pre = true := by
+    have := h
+    unfold WF at this
+    rw [wfFrom_append] at this
+    simp only [Bool.and_eq_true] at this
+    exact this.1
+  rw [decode_wire c hc _ h, decode_wire c hc pre hwf]
+  unfold expected
+  rw [expectedFrom_append, expectedFrom, msgs_split _ _ _ rfl, wireToks_append, tickSum_append]
+  have e3 : wireToks [Item.sysex body last] = (Item.sysex body last).toks := by simp [wireToks]
+  rw [e3, ← item_time]
+  simp [delivered, Item.stampAt]
+
+/-- … and with non-negative deltas that stamp lies between the arrival of the first and of the last byte of the
+    sysex (clock before its `F0` ≤ stamp ≤ clock at its `F7`). -/
+theorem timestamp_of_sysex_between (pre : List Item) (body : Body) (last : Gap)
+    (hnn : gapNonneg ((Item.sysex body last).toks) = true) :
+    tickSum (wireToks pre ++ [Tok.byte 0xF0].dropLast) ≤ tickSum (wireToks pre) ∧
+    tickSum (wireToks pre) ≤ tickSum (wireToks pre ++ ((Item.sysex body last).toks).dropLast) := by
+  have nn : ∀ g : Gap, gapNonneg g = true → 0 ≤ tickSum g := by
+    intro g
+    induction g with
+    | nil => intro _; simp [tickSum]
+    | cons x g ih =>
+      cases x with
+      | byte b => intro h; simpa [tickSum] using ih (by simpa [gapNonneg] using h)
+      | tick d =>
+        intro h
+        simp only [gapNonneg, Bool.and_eq_true, decide_eq_true_eq] at h
+        have := ih h.2
+        simp only [tickSum]
+        omega
+  have e : (Item.sysex body last).toks = (Tok.byte 0xF0 :: (bodyToks body ++ last)) ++ [Tok.byte 0xF7] := by
+    simp [Item.toks]
+  refine ⟨by simp, ?_⟩
+  rw [tickSum_append, e, tickSum_dropLast_byte, ← e]
+  have := nn _ hnn
+  omega
+
+/-! ## the hypotheses are inhabited: a concrete wire sequence
+
+buffer of 5 bytes; note on `90 3C 40` with a timing clock `F8` and a chunk border (3 ms) before its last byte;
+a second note under running status (`3E 00`) with a chunk border (2 ms) before its first data byte; a
+real-time `FE` between messages; a sysex `F0 01 02 03 F7` that exactly fills the buffer, cut inside (1 ms) and
+before its `F7` (4 ms), with an `FA` inside; a song position pointer `F2 05 06`; a program change; and again
+running status after a tick. -/
+
+example : AllOn exCfg := ⟨rfl, rfl, rfl⟩
+example : WF exCfg.bufSize exItems := by decide
+example : wire exItems =
+    [0x90, 0x3C, 0xF8, 0x40, 0x3E, 0, 0xFE, 0xF0, 1, 2, 0xFA, 3, 0xF7, 0xF2, 5, 6, 0xC1, 7, 8] := by decide
+example : expected exItems =
+    [([0xF8], 0), ([0x90, 0x3C, 0x40], 3), ([0x90, 0x3E, 0], 5), ([0xFE], 5), ([0xFA], 6),
+     ([0xF0, 1, 2, 3, 0xF7], 5), ([0xF2, 5, 6], 10), ([0xC1, 7], 10), ([0xC1, 8], 20)] := by decide
+/-- `decode_wire` on it -/
+example : listen exCfg (wireToks exItems) = delivered (expected exItems) := decode_wire exCfg ⟨rfl, rfl, rfl⟩ exItems (by decide)
+/-- the same bytes, one byte per call: `decode_wire_any_chunking` / `decode_chunking_same_bytes` apply -/
+example : bytesOf (((wire exItems).map fun b => [Tok.tick 1, Tok.byte b]).flatten) = wire exItems := by decide
+/-- `message_from_clean`: the running-status note from the state after the first note -/
+example : Clean (feed exCfg init (wireToks (exItems.take 1))).1 0x90 3 ∧
+    (Item.chan 0x90 true [([.tick 2], 0x3E), ([], 0)]).ok exCfg.bufSize 0x90 = true := by
+  refine ⟨⟨by decide, by decide, by decide, fun _ => by decide, fun _ => by decide⟩, by decide⟩
+/-- `message_explicit_any_state`: a state in the middle of a sysex (garbage before) and a note on -/
+example : (feed exCfg init [.byte 0xF0, .byte 1]).1.mode = .sysex ∧
+    startsExplicit [Item.chan 0x90 false [([], 0x3C), ([.byte 0xF8, .tick 3], 0x40)]] = true := by decide
+/-- `message_after_any_stream`: garbage that ends between messages with running status `0x92`, then `3C 40` -/
+example : (feed exCfg init [.byte 0x7F, .byte 0x92, .tick 3, .byte 0x01, .byte 0x02]).1.mode = .clean ∧
+    (Item.chan 0x92 true [([], 0x3C), ([.byte 0xF8], 0x40)]).ok exCfg.bufSize
+      (feed exCfg init [.byte 0x7F, .byte 0x92, .tick 3, .byte 0x01, .byte 0x02]).1.status = true := by decide
+/-- `timestamp_of_completion` / `timestamp_of_sysex`: split points in the example -/
+example : exItems = exItems.take 1 ++ (Item.chan 0x90 true [([.tick 2], 0x3E), ([], 0)]) :: exItems.drop 2 := by decide
+example : exItems = exItems.take 3 ++ (Item.sysex [([], 1), ([.tick 1], 2), ([.byte 0xFA], 3)] [.tick 4]) :: exItems.drop 4 := by decide
+example : gapNonneg ((Item.sysex [([], 1), ([.tick 1], 2), ([.byte 0xFA], 3)] [.tick 4]).toks) = true := by decide
+
 end Midi.C04
